@@ -88,6 +88,8 @@ var (
 	WarpAddr    = authtypes.NewModuleAddress(warptypes.ModuleName)
 	CCTPAddr    = cctptypes.ModuleAddress
 	FTFAddr     = authtypes.NewModuleAddress(ftftypes.ModuleName)
+	// BlockedPoolAddr is the staking module's bonded pool: blocked in simapp's bank configuration.
+	BlockedPoolAddr = authtypes.NewModuleAddress("bonded_tokens_pool")
 
 	UserNames = []string{"alice", "bob", "carol", "dave", "erin", "frank"}
 
